@@ -169,7 +169,13 @@ func c09Buffer(doc []byte, d c09Dest) (res c09Res) {
 // the open findings of C05 about texts that are not JSON, as they show when the two modes are compared: a predicate
 // on the document and the destination only
 func c09KnownInvalid(doc []byte, stdValid bool, dest string, streamOK, bufOK bool) string {
-	if stdValid || (bytes.IndexByte(doc, '\\') < 0 && bytes.IndexByte(doc, 0) < 0) {
+	if stdValid {
+		return ""
+	}
+	if bytes.IndexByte(doc, '\\') < 0 && bytes.IndexByte(doc, 0) < 0 {
+		if dest == "struct" && streamOK && !bufOK {
+			return "SkipUnvalidated" // an unknown member stepped over without validation
+		}
 		return ""
 	}
 	switch dest {
@@ -276,6 +282,8 @@ func runC09(o *Out) {
 		docs = append(docs, "{"+genWS(r)+strings.Join(parts, genWS(r)+","+genWS(r))+genWS(r)+"}"+genWS(r))
 	}
 	docs = append(docs, c09Long(r)...)
+	// object keys that match no field and end in an escape: every cut position matters
+	docs = append(docs, `{"[\"":{"é":false},"k":null,"a":5}`, `{"0\\": 1E+2 , "a":7  }`, `{"x\u0022":[1],"\\\"":2,"b":"z\""}`, `{"unknown\\\\":{"\"":"\\"},"c":[1]}`)
 	// invalid neighbours
 	nmut := 0
 	for _, d := range docs[:len(docs):len(docs)] {
